@@ -318,3 +318,62 @@ Example C01_duration_witnesses_repaired :
                        | None => false end)
           [0; 1; 27; 28; 29; 30; 31; 59; 335; 336; 340; 355; 356; 357; 385; 3650; 106751]%Z = true.
 Proof. vm_compute. reflexivity. Qed.
+
+(* ---- dynamic table extraction (b35) ---- *)
+(* harness/zz_jsondyn.go calls every JSONLoad* function, GetAPSource and JSONGetActorEndpoints of the real code on
+   documents holding ONE member, under every member name any struct declares (and name ++ "Map"), in every JSON
+   kind of rprobe_trees; Cases_C01dynP / E / C compare the fields found set with what the read tables regenerated
+   from the source say (Model/JsonDyn.v r_static: the flattened entries applied in order), Cases_C01dynS with the
+   field's declaration.  The theorems say what the static side IS: the interpreter of Model/JsonDec.v - the model
+   that is value-compared with the code - on EVERY document; field by field it is the field's own entry; and an
+   entry none of whose read names is a member of the document sets nothing. *)
+From AP.Model Require Import Text Shape JsonDec JsonDyn JsonDynGen.
+From AP.Proofs Require Import JsonDynP.
+From AP.Gen Require Import TypeLists Switches.
+
+Theorem C01_dyn_static_is_interpreter : forall jr rec fname rs, flatten_r jr 6 fname = Some rs ->
+  forall val, r_static jr rec fname val = JsonDec.run_table jr rec 6 fname val [].
+Proof. exact r_static_is_interpreter. Qed.
+
+Theorem C01_dyn_static_field_by_field : forall jr rec fname rs val fs,
+  flatten_r jr 6 fname = Some rs -> NoDup (map rf_fid rs) -> r_static jr rec fname val = Some fs ->
+  (forall r, In r rs -> exists ov, entry_value jr rec val r = Some ov /\ getf (rf_fid r) fs = ov) /\
+  (forall f, ~ In f (map rf_fid rs) -> getf f fs = None).
+Proof. exact r_static_fields. Qed.
+
+Theorem C01_dyn_entry_silent : forall jr rec fname val r x,
+  bytes_eqb fname (B "GetAPSource") = false -> bytes_eqb (rf_getter r) (B "GetAPSource") = false ->
+  (forall n, In n (read_names fname r) -> forall ku, fj_get ku val n = None) ->
+  entry_value jr rec val r <> Some (Some x).
+Proof. exact entry_silent. Qed.
+
+(* the conditions on the tables of this run: all 17 read tables flatten and none reads a field twice *)
+Theorem C01_dyn_tables :
+  forallb (fun t => match flatten_r jr_tables 6 (fst t) with
+                    | Some rs => fids_nodup (map rf_fid rs)
+                    | None => false
+                    end) jr_tables = true.
+Proof. vm_compute. reflexivity. Qed.
+
+(* non-vacuity: the read entry of Object.Name computed from the table in the rendering of the case files - the
+   names that feed it and, per probe (1 IRI string, 2 plain string, ... see rprobe_trees), the class of the value *)
+Example C01_dyn_example :
+  static_rentry jr_tables dyn_rec (B "JSONLoadObject") F_Name [B "name"; B "nameMap"; B "summary"]
+  = [(B "name", [(1, VText 1); (2, VText 1); (3, VText 0); (4, VText 0); (5, VText 0); (6, VText 0); (7, VText 2); (8, VText 0);
+                 (9, VText 2); (10, VText 1); (11, VText 1); (12, VText 0); (13, VText 0); (14, VText 1); (15, VText 0); (16, VText 6);
+                 (17, VText 0); (18, VText 0)]%nat);
+     (B "nameMap", [(1, VText 1); (2, VText 1); (3, VText 0); (4, VText 0); (5, VText 0); (6, VText 0); (7, VText 2); (8, VText 0);
+                    (9, VText 2); (10, VText 1); (11, VText 1); (12, VText 0); (13, VText 0); (14, VText 1); (15, VText 0); (16, VText 6);
+                    (17, VText 0); (18, VText 0)]%nat)] /\
+  (* a reader that took startIndex from totalItems, against the declaration: the foreign name is reported *)
+  rdecl_first_bad (B "JSONLoadOrderedCollectionPage", F_StartIndex, TUint, B "startIndex", [(B "totalItems", [(3%nat, FUint 7)])])
+  = Some (RDForeignName (B "totalItems")).
+Proof. split; vm_compute; reflexivity. Qed.
+
+(* where the decoder model has no answer for a probe (left out of the comparison, on both sides): an instant in an
+   item position (10: outside the URL grammar of Model/Url.v), and strings that are no instant / no duration in an
+   instant / duration position (time.Parse and xsd.Unmarshal on malformed text are not modelled) - nothing else *)
+Example C01_dyn_abstentions :
+  abstentions jr_tables dyn_rec
+  = [(B "JSONGetItem", [10]); (B "JSONGetTime", [1; 2; 11]); (B "JSONGetDuration", [1; 2; 10])]%nat.
+Proof. vm_compute. reflexivity. Qed.
